@@ -212,6 +212,10 @@ func runC06(e *core.Env) {
 		reg.K.TagDelete = e.Choose("gen", 2, "tagdelete") == 0
 		reg.K.TagPage = []int{0, 1, 2}[e.Choose("gen", 3, "tagpage")]
 		reg.K.LinkSecondLine = e.Choose("gen", 2, "linkline") == 1
+		reg.K.TagPageEmptyOnce = reg.K.TagPage > 0 && e.Choose("gen", 3, "emptypage") == 2
+		if reg.K.TagPageEmptyOnce {
+			e.Probe("paged-listing-with-an-empty-page")
+		}
 		reg.K.Referrers = e.Choose("gen", 2, "refapi") == 0
 		ep.reg, ep.repo = reg, "proj/app"
 		for _, n := range nodes {
